@@ -33,7 +33,7 @@ ASSUMPTIONS = ['checksum bytes are masked in the byte comparison (the reader ign
 SHARDS = {'quick': 4, 'thorough': 16}
 REQUIRED_CLASSES = {'tif-normal': 1, 'tif-reversed': 1, 'trailer-recnum': 1, 'trailer-filenum': 1, 'trailer-checksum': 1,
                     'pr-len<32': 1, 'read-ends-on-pr-boundary': 1, 'producer-filewrite': 1,
-                    'pr-longer-than-32KiB': 1, 'reversed-first-next-multiple-of-256': 1, 'physical-records>65536': 1}
+                    'pr-longer-than-32KiB': 1, 'reversed-first-next-multiple-of-256': 1, 'physical-records>65536': 1, 'checksum-compared-with-fresh-writer': 1}
 
 
 class KeepOpen(io.BytesIO):
@@ -113,6 +113,18 @@ def check_write(case, cc):
                 i, got[max(0, i - 4):i + 8].hex(), ref[max(0, i - 4):i + 8].hex()))
         if pos != model['lr_start']:
             cc.dev('write-positions', 'positions', 'write() returned %r, model %r' % (pos[:8], model['lr_start'][:8]))
+        # the checksum of a physical record is a function of that record: the records of the last logical record must carry the
+        # checksums they get from a writer that has written nothing before (the value itself is not modelled: no reader checks it)
+        if cfg['checksum'] and not cfg['rec_num'] and len(lrs) >= 2 and len(got) == len(ref):
+            solo, _p = file_write_bytes(lrs[-1:], cfg)
+            _r, solo_model = G.encode_physical(lrs[-1:], cfg)
+            n_last = len(model['prs'][-1])
+            a = [bytes(got[p:p + 2]) for p in model['checksum_pos'][-n_last:]]
+            b = [bytes(solo[p:p + 2]) for p in solo_model['checksum_pos']]
+            cc.cls('checksum-compared-with-fresh-writer')
+            if len(solo) == len(_r) and a != b:
+                cc.dev('write-layout==LIS79', 'checksum-depends-on-earlier-records',
+                       'checksums of the last logical record %r; written alone by a fresh writer %r' % ([x.hex() for x in a[:6]], [x.hex() for x in b[:6]]))
     if ambiguous_reversed(cfg, model):
         cc.cls('excluded-ambiguous-reversed')
         return
